@@ -56,7 +56,7 @@ def env_model(keys, env, proc):
 
 # ---------------- text generators ----------------
 
-VERSIONS = ['3', '3.8', '3.8.0', '3.8.1', '3.9', '3.10', '3.0', '4', '2.7', '3.8.0.0', '3.7.2', '0', '3.8.10', '3.11.0']
+VERSIONS = ['3', '3.8', '3.8.0', '3.8.1', '3.9', '3.10', '3.0', '4', '2.7', '3.8.0.0', '3.7.2', '0', '3.8.10', '3.11.0', '3.0.1', '3.10.0.2', '2.0.7']
 VERSIONS_ODD = ['3.8a1', '3.8.post1', '3.8.dev1', '1!3.8', '3.8rc2', '3.9.0b1']
 STRVALS = ['a', 'b', 'ab', '', 'linux', 'win32', 'posix', 'nt', 'darwin', 'é', 'a b', 'x86_64', 'Linux', 'aa', 'a\x00', "it's", 'say "hi"']
 EXTRAS = ['a', 'b', 'c', 'A_b', 'a.b', 'dev', 'x-y']
@@ -69,6 +69,22 @@ SOPS = ['==', '!=', '<', '<=', '>', '>=']
 BOUNDARY_TEXTS = ["python_version not in ''", "python_version in ''", "python_full_version not in ''", "python_full_version in ' '", "python_version not in '  '",
                   "implementation_version in ''", "python_version in '3.8'", "python_version not in '3.8'", "os_name == ''", "os_name != ''", "'' in os_name", "os_name in ''",
                   "os_name not in ''", "'' not in os_name", "python_full_version >= '0'", "python_full_version < '0'", "python_version == '0'", "extra == 'a' and extra != 'a'"]
+
+
+# shapes the DNF printer / simplifier is sensitive to (rendered and re-parsed by C05; as requirement markers by C08)
+DNF_SHAPES = ["sys_platform == 'linux' or platform_system != 'linux'", "(os_name == 'posix' and extra == 'a') or sys_platform != 'posix'",
+              "platform_system == 'Windows' or (os_name != 'Windows' and sys_platform == 'win32')", "python_full_version == '3.8' or implementation_version != '3.8'",
+              "os_name in 'ab' or sys_platform not in 'ab'", "'x' in os_name or 'x' not in sys_platform", "os_name == 'a' or os_name != 'b'", "os_name < 'a' or sys_platform >= 'a'",
+              "python_full_version < '3.8.2' or python_full_version >= '3.9'", "implementation_version < '7.3.11' or implementation_version >= '7.4'",
+              "python_full_version < '3.8' or python_full_version >= '3.9.1'", "(os_name == 'a' and sys_platform == 'b') or (os_name != 'a' and sys_platform != 'b')",
+              "extra == 'a' or (extra != 'b' and os_name == 'x')", "(extra == 'a' and os_name == 'x') or extra != 'a'", "python_version >= '3.8' and python_version < '3.12' and python_version != '3.9'",
+              "(os_name > 'posix' and extra == 'fast') or os_name < 'posix'", "(sys_platform >= 'linux' and 'arm' in platform_machine) or sys_platform < 'linux'",
+              "(os_name < 'posix' and sys_platform >= 'linux' and sys_platform < 'linux2') or os_name >= 'posix'",
+              "(os_name == 'nt' and platform_machine > 'arm' and platform_machine < 'armv8') or os_name == 'posix'",
+              "(implementation_version < '3' and python_full_version >= '3.8' and python_full_version < '3.10') or implementation_version >= '3'",
+              "python_version != '3.8' and python_full_version != '3.9.1'", "python_full_version != '3.7' and python_full_version != '3.8.*' and sys_platform == 'linux'",
+              "implementation_version != '7.3.9' and (implementation_version < '7.1' or implementation_version > '7.2')", "platform_release != '5.4' and (platform_release < '5.10' or platform_release >= '5.11')",
+              "(os_name <= 'a' and extra == 'x') or os_name > 'a'", "(python_full_version <= '3.8' and extra == 'x') or python_full_version > '3.8'"]
 
 
 def q(rng, s):
